@@ -283,6 +283,11 @@ def run(spec, ctx):
                 from rt import impl
 
                 comp = impl.call(jsonpath.compile, text)
+                if comp.ok and i % 6 == 0:
+                    from rt.jp_oracle import check_interleaved
+
+                    others = [gen.filter_doc(r, names, strings + [w for w in fg.witnesses if "\n" not in w and "\r" not in w]) for _ in range(2)]
+                    check_interleaved(ctx, ast, text, [(doc, None)] + [(d_, None) for d_ in others if isinstance(d_, (dict, list))], "interleaved")
                 if comp.ok:
                     for _d in range(3):
                         d2 = gen.filter_doc(r, names, strings + [w for w in fg.witnesses if "\n" not in w and "\r" not in w])
@@ -351,5 +356,10 @@ def replay(case, ctx):
         diff = got.desc() if not got.ok else impl.nodes_equal(got.value, ref.eval_query(case["ast"], case["doc"]))
         if diff:
             ctx.violation("reused-compiled-query-differs-from-model", case, {"diff": diff})
+        return
+    if case.get("interleaved"):
+        from rt.jp_oracle import check_interleaved
+
+        check_interleaved(ctx, case["ast"], case["text"], [tuple(x) for x in case["runs"]], case.get("class", "replay"))
         return
     check_query_case(ctx, case["ast"], case["doc"], case["text"], case.get("class", "replay"), nontrivial=True)
